@@ -78,7 +78,7 @@ func loadAPITable() (*apiTable, error) {
 
 var (
 	qualTokRE   = regexp.MustCompile(`\b([a-z][a-zA-Z0-9]*)\.([A-Z]\w*)`)
-	methodTokRE = regexp.MustCompile(`\.([A-Z]\w*)\(`)
+	methodTokRE = regexp.MustCompile(`\b(\w+)\.([A-Z]\w*)\b`)
 	octalTokRE  = regexp.MustCompile(`\b0[oO][0-7_]+\b`)
 )
 
@@ -107,19 +107,20 @@ func recommendations(api *apiTable, d harness.Diag, src string) []recommended {
 		}
 	}
 	for _, m := range methodTokRE.FindAllStringSubmatch(text, -1) {
-		tok := "." + m[1] + "("
-		if seen[tok] || strings.Contains(src, tok) {
+		if api.pkgs[m[1]] {
+			if _, isFunc := api.funcs[m[1]+"."+m[2]]; isFunc {
+				continue // a package-level function, handled above
+			}
+		}
+		tok := "." + m[2]
+		if seen[tok] || strings.Contains(src, tok+"(") || strings.Contains(src, tok+" ") || strings.Contains(src, tok+")") || strings.Contains(src, tok+"\n") {
 			continue
 		}
 		seen[tok] = true
-		if _, isFunc := api.funcs[strings.TrimPrefix(strings.TrimSuffix(tok, "("), ".")]; isFunc {
-			continue
-		}
-		// only methods that no std type had in go1.0 can be dated; a method name also used by user types is
-		// dated by its earliest std appearance (a lower bound, so no false alarm)
-		if since, ok := api.methods[m[1]]; ok && since > 0 {
-			// skip when the same name is also a package-level function already matched above
-			out = append(out, recommended{tok, since})
+		// a method name is dated by its earliest appearance on any std type (a lower bound, so no false alarm);
+		// names that some std type already had in go1.0 cannot be dated
+		if since, ok := api.methods[m[2]]; ok && since > 0 {
+			out = append(out, recommended{"method " + tok, since})
 		}
 	}
 	if octalTokRE.MatchString(text) && !octalTokRE.MatchString(src) {
@@ -234,6 +235,36 @@ func c15(args []string) int {
 	cmp("", "1.99", "unset=newest")
 	for n := 0; n <= 25; n++ {
 		cmp(fmt.Sprintf("1.%d", n), fmt.Sprintf("go1.%d", n), "spelling")
+	}
+
+	// ---- retargeting: the integrator may change the version of a live context (SetGoVersion after the
+	// checkers exist); a long-lived set must then behave like a set created with that version
+	{
+		set, err := harness.NewSet(harness.Infos(nil), "1.21")
+		if err != nil {
+			fmt.Fprintln(os.Stderr, err)
+			return 2
+		}
+		for _, v := range []string{"1.13", "", "1.17", "1.12", "1.18", "go1.15", "1.25", "1.14"} {
+			set.Ctx.SetGoVersion(v)
+			for i := range progs {
+				p := &progs[i]
+				want, ok := results[v].out[p.ID]
+				if !ok {
+					continue
+				}
+				pk := harness.Load(p.Path, p.Files)
+				d, _ := set.VisitAll(pk)
+				pk.Release()
+				ev.Eval(1)
+				got := harness.DiagStrings(d)
+				if !equalStrings(got, want) {
+					ev.Violate(evidence.Violation{Key: "retarget|" + firstDiffChecker(got, want), What: "after SetGoVersion on a live context the checkers still use the version they were created with",
+						Observed: fmt.Sprintf("%s after retargeting to %q: only here %v; only with a set created for that version %v", p.ID, v, diffOnly(got, want), diffOnly(want, got)), Replay: func() map[string]interface{} { m := progReplay(p, ""); m["goVersion"] = v; m["created_with"] = "1.21"; return m }()})
+					break
+				}
+			}
+		}
 	}
 
 	// ---- version string parser / comparator against numeric comparison
